@@ -158,8 +158,10 @@ def rust_side():
         disc += 1
     # how to_update_result turns a status into the C status field
     cm = re.search(r'fn to_update_result.*?\n\}', src, flags=re.S)
-    if not cm or 'status: status as i32' not in cm.group(0) or 'status: SHOREBIRD_UPDATE_ERROR' not in cm.group(0):
-        raise Bad('to_update_result no longer has the recognised shape (status as i32 / SHOREBIRD_UPDATE_ERROR)')
+    # (the mapping itself is provoked through the C API on every run; here only: the status is the enum's
+    # discriminant and the error case uses the named constant, wherever in the function that is written)
+    if not cm or not re.search(r'\bas i32\b', cm.group(0)) or 'SHOREBIRD_UPDATE_ERROR' not in cm.group(0):
+        raise Bad('to_update_result no longer mentions `as i32` and SHOREBIRD_UPDATE_ERROR')
     return fns, structs, consts, variants
 
 
@@ -608,6 +610,12 @@ def emit_consts():
         raise Bad('PatchCheckRequest fields not recognised')
     newm = re.search(r'impl PatchCheckRequest \{.*?PatchCheckRequest \{(.*?)\}\s*\}\s*\}', net, flags=re.S)
     assigns = re.findall(r'(\w+): ([^,\n]+),', newm.group(1)) if newm else []
+    # where each field comes from, reduced to the config field / function it names (not the exact expression)
+    def src_key(e):
+        m1 = re.search(r'config\.(\w+)', e)
+        m2 = re.search(r'\b(current_\w+)\s*\(', e)
+        return 'config.' + m1.group(1) if m1 else (m2.group(1) if m2 else e.strip())
+    assigns = [(a, src_key(b)) for a, b in assigns]
     return ('(* GENERATED by tools/translate.py from /repo — do not edit. *)\n'
             'From Coq Require Import List String.\nImport ListNotations.\nOpen Scope string_scope.\n\n'
             'Definition gen_default_channel : string := "%s".\n'
@@ -628,13 +636,18 @@ def write_if_changed(path, text):
 
 def main():
     os.makedirs(GEN, exist_ok=True)
-    try:
-        write_if_changed(os.path.join(GEN, 'AbiTables.v'), emit_abi())
-        write_if_changed(os.path.join(GEN, 'PanicSites.v'), emit_panics())
-        write_if_changed(os.path.join(GEN, 'Consts.v'), emit_consts())
-        write_if_changed(os.path.join(GEN, 'LockSites.v'), emit_locks())
-    except Bad as e:
-        print('translate.py: source shape not recognised: %s' % e)
+    failed = []
+    for name, fn in (('AbiTables', emit_abi), ('PanicSites', emit_panics), ('Consts', emit_consts), ('LockSites', emit_locks)):
+        try:
+            write_if_changed(os.path.join(GEN, name + '.v'), fn())
+        except Bad as e:
+            failed.append(name)
+            print('translate.py: %s: source shape not recognised: %s' % (name, e))
+        except Exception as e:       # an unexpected shape must not take the other tables down with it
+            failed.append(name)
+            print('translate.py: %s: translator error: %r' % (name, e))
+    if failed:
+        print('translate.py: FAILED ' + ' '.join(failed))
         sys.exit(1)
     print('translate.py: ok')
 
